@@ -2,7 +2,7 @@
   Inductive invariants of the reservation / barrier protocol model `Res` (Model/Res.lean) and their
   preservation by every `step`.  The user-facing theorems are in Proofs/Res.lean.
 
-  Three invariants, proved separately (each is inductive given the previous ones):
+  Four invariants, proved separately (each is inductive given the previous ones):
 
   * `Inv1`  counting:  `Acc` (cur = nRes + nHold + handed + nExec + nDone), `conc ≤ maxConc`,
             every `conc` value loaded by a reserving dispatcher is `≤ maxConc`, `cur ≤ maxConc`.
@@ -15,6 +15,12 @@
        L  ls g = some stopped ∧ dirty g = false → Quiet
        F  frozen → openResumers = 0 ∧ Quiet
   * `Bud`   budget = some b → openResumers = 0 ∧ ws quiet ∧ nHold + handed ≤ b   (needs D)
+  * `TkOk`  ph g ≠ idle → 1 ≤ tk g ≤ maxConc   (the value taken by the CAS of reserve(); needs `Inv1.lcc`)
+
+  `nHold` counts the dispatchers past the status re-check (phases `checked` and `holding`): under a
+  quiet status no dispatcher enters `checked` (`ldStatusD` sends it to `mustRelease`), and the limit
+  re-check `ldConcR` only moves a dispatcher out of `nHold` or leaves the counters alone, so `Quiet`
+  and `Bud` are stable under it.
 
   Proof style: `cases e`, unfold `step`, split every `if`/`match` (`res_step_cases`), the error
   branches disappear, the `.ok` branches substitute the explicit successor state; the remaining
@@ -163,6 +169,25 @@ theorem bud_step {s s' : State} {e : Ev} (h : step s e = .ok s')
     all_goals (try assumption)
     all_goals (try grind)
 
+/-! ## The value taken by the CAS of reserve() -/
+
+/-- a dispatcher that holds a slot took a value `c + 1` with `c <` a limit it had loaded: at least 1
+    and at most the largest limit ever configured -/
+def TkOk (s : State) : Prop := ∀ g, s.ph g ≠ .idle → 1 ≤ s.tk g ∧ s.tk g ≤ s.maxConc
+
+theorem tk_init (c : Nat) : TkOk (init c) := by
+  simp [TkOk, init]
+
+theorem tk_step {s s' : State} {e : Ev} (h : step s e = .ok s') (i : Inv1 s) (t : TkOk s) : TkOk s' := by
+  have hl := i.lcc
+  unfold TkOk at *
+  cases e <;> res_step_cases h
+  all_goals (intro g')
+  all_goals (have tg := t g')
+  all_goals (try simp at *)
+  all_goals (try assumption)
+  all_goals (try grind [upd])
+
 /-! ## All invariants hold in every reachable state -/
 
 theorem reach_inv {s : State} (r : Reach s) : Inv1 s ∧ Inv s ∧ Bud s := by
@@ -171,6 +196,11 @@ theorem reach_inv {s : State} (r : Reach s) : Inv1 s ∧ Inv s ∧ Bud s := by
   | step e _ h ih =>
     obtain ⟨i1, i, b⟩ := ih
     exact ⟨inv1_step h i1, inv_step h i1.acc i, bud_step h i.D b⟩
+
+theorem reach_tk {s : State} (r : Reach s) : TkOk s := by
+  induction r with
+  | init c => exact tk_init c
+  | step e r' h ih => exact tk_step h (reach_inv r').1 ih
 
 theorem reach_run {s s' : State} {evs : List Ev} (r : Reach s) (h : run s evs = .ok s') : Reach s' := by
   induction evs generalizing s with
